@@ -46,7 +46,7 @@ SCHEDS = [
     {"policy": "random", "p": 0.5, "preempt": "sync"},
     {"policy": "pct", "d": 2, "horizon": 150, "preempt": "sync"},
 ]
-OPS = ["are_you_there", "request_svs", "request_sv", "list_svs", "request_ecs", "list_ecs", "set_ec", "set_ec",
+OPS = ["are_you_there", "request_svs", "request_sv", "list_svs", "request_ecs", "list_ecs", "set_ec", "set_ec", "set_ecs",
        "list_alarms", "enable_alarm", "subscribe", "trigger", "trigger", "go_online", "go_offline", "remote_command",
        "set_alarm", "clear_alarm", "operator", "cycle_host", "cycle_equipment", "cycle_mid_call", "clear_events",
        "subscribe", "call_and_trigger", "call_and_trigger"]
@@ -342,6 +342,22 @@ def run(sim, plan):
             elif res == 0 or after != before:
                 sim.violation("C20.R2", f"set_ec(20, {val}) (out of range) returned EAC {res!r}, value {before}->{after}",
                               sig="C20.R2|set_ec-invalid")
+        elif op == "set_ecs":
+            # several constants in one request: applied completely or (one of them out of range / unknown) not at all
+            pairs, valid = [([[20, 41], [2, 1]], True), ([[20, 42], [2, 7]], False), ([[2, 0], [20, 555]], False),
+                            ([[20, 43], [9999, 1]], False), ([[2, 2], [20, 0]], True)][salt % 5]
+            sim.probe("set_ecs_valid" if valid else "set_ecs_invalid")
+            before = (eq.equipment_constants[20].value, eq._time_format)
+            res = api(op, lambda: host.set_ecs(pairs))
+            after = (eq.equipment_constants[20].value, eq._time_format)
+            want = dict(pairs)
+            if valid:
+                if res != 0 or after != (want[20], want[2]):
+                    sim.violation("C20.R2", f"set_ecs({pairs}) returned EAC {res!r}, equipment now holds (ec20, "
+                                  f"time format) = {after}", sig="C20.R2|set_ecs-valid")
+            elif res == 0 or after != before:
+                sim.violation("C20.R2", f"set_ecs({pairs}) (one constant unknown / out of range) returned EAC {res!r}, "
+                              f"(ec20, time format) {before} -> {after}", sig="C20.R2|set_ecs-invalid")
         elif op == "list_alarms":
             res = api(op, host.list_alarms)
             got = None if res is None else [(e["ALID"], e["ALCD"], e["ALTX"]) for e in res]
